@@ -6,6 +6,7 @@ import (
 	"fmt"
 	"reflect"
 	"strings"
+	"sync"
 	"unicode"
 	"unsafe"
 
@@ -667,6 +668,11 @@ type catSpec struct {
 	N int `json:"n"`
 }
 
+var (
+	compTripMu   sync.Mutex
+	compTripPrev = map[reflect.Type]reflect.Value{}
+)
+
 // compTrip round-trips a State value through a real modeling.Component
 // checkpoint (SaveCheckpoint on one component, LoadCheckpoint on a second one
 // built the same way).
@@ -678,6 +684,16 @@ func compTrip[T any](val reflect.Value) (reflect.Value, error) {
 	}
 	a, b := build("A"), build("B")
 	a.State = val.Interface().(T)
+	// the receiving component is not fresh: it holds the previous value of this
+	// type (restore into a component that kept running / was pre-populated)
+	compTripMu.Lock()
+	if prev, ok := compTripPrev[val.Type()]; ok {
+		if pv, ok := prev.Interface().(T); ok {
+			b.State = pv
+		}
+	}
+	compTripPrev[val.Type()] = val
+	compTripMu.Unlock()
 	var buf bytes.Buffer
 	if err := a.SaveCheckpoint(&buf); err != nil {
 		return reflect.Value{}, fmt.Errorf("marshal: %w", err)
